@@ -6,6 +6,7 @@
 **             alpha=N (alphabet {a,b,c..} size 2..4)   maxlen=L (content bound)
 **             ulen=K (operand strings: every string of length <= K, default 2)
 **             hashop=1 ("light" mode: hash(s) is an operation, not a query of the state oracle)
+**             pct=1 (print_to formats containing "%%" join the alphabet)
 **             prop=C16|C12    depth=N (0 = fixpoint)
 **
 ** State: the content of the String (plus, under ASan, the exact size of its allocation,
@@ -33,6 +34,7 @@ static int propC12;
 ** length the string had when its hash was last asked (hq, -1 = not asked in this history): whatever
 ** the implementation remembers from a hash() call survives the edits that follow. */
 static int hashop;
+static int pct;                 /* pct=1: print_to formats containing "%%" are part of the alphabet (content then ranges over the letters and '%') */
 static int hq = -1, hfresh = 0;
 static char hq_text[64];
 static var SENT;              /* another String, hashed at the start of every execution */
@@ -224,6 +226,7 @@ static int check(void) {
 */
 enum { M_COPY, M_ASSIGN_INTO_FRESH, M_ASSIGN_EQUAL_VALUE, M_CONCAT_EQUAL_VALUE, M_REM_EQUAL_VALUE,
        M_ASSIGN_SELF, M_CONCAT_SELF, M_REM_SELF, M_HASH,
+       M_PCT_FIRST, M_PCT_LAST = M_PCT_FIRST + 9,       /* print_to with "%%" in the format: 5 formats x {at the end, at 0} */
        F_ASSIGN_NULL, F_CONCAT_NULL, F_APPEND_NULL, F_ASSIGN_INT, F_CONCAT_INT, F_APPEND_INT,
        F_REM_NULL, F_MEM_NULL, F_REM_INT, F_MEM_INT, F_GET, F_SET, F_PRINT_NOARGS,
        NMISC };
@@ -235,6 +238,8 @@ static int nops_total(void) { return base_misc() + NMISC; }
 
 static const char* miscname[] = { "s=copy(s)", "s=assign(new String,s)", "assign(s, heap string of equal value)", "concat(s, heap string of equal value)",
   "rem(s, string of equal value)", "assign(s,s)", "concat(s,s)", "rem(s,s)", "hash(s)",
+  "print_to(s,len,\"%%\")", "print_to(s,len,\"%%%s\",\"a\")", "print_to(s,len,\"%s%%\",\"a\")", "print_to(s,len,\"%%%%\")", "print_to(s,len,\"%s%%%s\",\"a\",\"b\")",
+  "print_to(s,0,\"%%\")", "print_to(s,0,\"%%%s\",\"a\")", "print_to(s,0,\"%s%%\",\"a\")", "print_to(s,0,\"%%%%\")", "print_to(s,0,\"%s%%%s\",\"a\",\"b\")",
   "assign(s,NULL)", "concat(s,NULL)", "append(s,NULL)", "assign(s,Int)", "concat(s,Int)", "append(s,Int)",
   "rem(s,NULL)", "mem(s,NULL)", "rem(s,Int)", "mem(s,Int)", "get(s,0)", "set(s,len+1,\"a\")", "print_to(s,len,\"%s\") no argument" };
 
@@ -537,6 +542,32 @@ static int apply_inner(int op) {
     if (m == M_CONCAT_EQUAL_VALUE) { char t[REFCAP]; strcpy(t, mdl); strcat(mdl, t); }
     if (m == M_REM_EQUAL_VALUE) mdl[0] = 0;
     return VF_OK;
+  case M_PCT_FIRST: case M_PCT_FIRST + 1: case M_PCT_FIRST + 2: case M_PCT_FIRST + 3: case M_PCT_FIRST + 4:
+  case M_PCT_FIRST + 5: case M_PCT_FIRST + 6: case M_PCT_FIRST + 7: case M_PCT_FIRST + 8: case M_PCT_LAST: {
+    /* a literal percent sign in a formatted write: alone, leading, trailing, doubled, between two conversions */
+    if (!pct) return VF_SKIP;
+    static const char* pf[5] = { "%%", "%%%s", "%s%%", "%%%%", "%s%%%s" };
+    static const char* pk[5] = { "alone", "leading", "trailing", "doubled", "between-conversions" };
+    int k = (m - M_PCT_FIRST) % 5, at0 = (m - M_PCT_FIRST) >= 5;
+    size_t pos = at0 ? 0 : rl;
+    if (at0 && rl == 0) return VF_SKIP;          /* same as "at the end" */
+    char outb[16];
+    int on = k == 4 ? snprintf(outb, sizeof outb, pf[k], "a", "b") : (k == 1 || k == 2) ? snprintf(outb, sizeof outb, pf[k], "a") : snprintf(outb, sizeof outb, pf[k], "");
+    if (pos + (size_t)on > (size_t)L) return VF_SKIP;
+    static char kind[64]; snprintf(kind, sizeof kind, "print_to-percent-%s-%s", pk[k], at0 ? "at-start" : "at-end");
+    setkind(kind);
+    volatile int ret = -12345;
+    if (k == 4) e = RUN(ret = print_to(S, (int)pos, "%s%%%s", $S("a"), $S("b")));
+    else if (k == 1) e = RUN(ret = print_to(S, (int)pos, "%%%s", $S("a")));
+    else if (k == 2) e = RUN(ret = print_to(S, (int)pos, "%s%%", $S("a")));
+    else if (k == 0) e = RUN(ret = print_to(S, (int)pos, "%%"));
+    else e = RUN(ret = print_to(S, (int)pos, "%%%%"));
+    if (e) { vf_violation(LB("raises"), NULL, "print_to(\"%s\", %zu, \"%s\", ...) raised %s", mdl, pos, pf[k], vf_exc_name(e)); return VF_BAD; }
+    strcpy(mdl + pos, outb);
+    if (ret != (int)(pos + (size_t)on)) {
+      vf_violation(LB("returned-position"), NULL, "print_to at %zu with format \"%s\" wrote \"%s\" and returned %d, expected %zu", pos, pf[k], outb, (int)ret, pos + (size_t)on); return VF_BAD;
+    }
+    return VF_OK; }
   case M_HASH: {
     /* explicit query (light mode): compared with references that never call String_Hash */
     if (!hashop) return VF_SKIP;
@@ -677,7 +708,8 @@ static int nontrivial(void) {
 **   print_to(s, P, "%s", payload) (must return P+N) followed by append("Z");
 **   print_to(s, 0, "%s", payload) over the prefix (overwrite-and-truncate);
 **   resize(N) of prefix+payload+suffix (truncate) and of the prefix alone (grow);
-**   rem(payload) from prefix+payload+suffix; rem of an absent N+1 character operand; copy.
+**   rem(payload) from prefix+payload+suffix; rem of an absent N+1 character operand; copy;
+**   print_to(s, P, f, payload) with a literal "%%" leading, trailing and doubled between two conversions, then append("Z").
 ** Case id (replayable): "ladder N=<n> P=<p> op=<k>".
 */
 
@@ -758,8 +790,8 @@ static int ladder_check(var s, const char* expect) {
   return 0;
 }
 
-enum { LO_ASSIGN, LO_CONCAT, LO_APPEND, LO_PRINT_END, LO_PRINT_START, LO_RESIZE_SHRINK, LO_RESIZE_GROW, LO_REM, LO_REM_ABSENT, LO_COPY, LO_N };
-static const char* lo_name[] = { "assign", "concat", "append", "print_to-at-end", "print_to-at-start", "resize-shrink", "resize-grow", "rem", "rem-absent", "copy" };
+enum { LO_ASSIGN, LO_CONCAT, LO_APPEND, LO_PRINT_END, LO_PRINT_START, LO_RESIZE_SHRINK, LO_RESIZE_GROW, LO_REM, LO_REM_ABSENT, LO_COPY, LO_PCT_LEADING, LO_PCT_TRAILING, LO_PCT_BETWEEN, LO_N };
+static const char* lo_name[] = { "assign", "concat", "append", "print_to-at-end", "print_to-at-start", "resize-shrink", "resize-grow", "rem", "rem-absent", "copy", "print_to-percent-leading", "print_to-percent-trailing", "print_to-percent-doubled-between-conversions" };
 
 /*
 ** hash(s) is asked immediately BEFORE and immediately AFTER the operation, inside the same try block:
@@ -864,6 +896,25 @@ static void ladder_one(int N, int P, int op) {
     LOP(rem(s, $S(absent)));
     if (e && e != ValueError && e != KeyError) { vf_violation(LL("wrong-exception"), NULL, "rem of an absent substring raised %s", vf_exc_name(e)); bad = 1; }
     e = NULL;
+    break; }
+  case LO_PCT_LEADING: case LO_PCT_TRAILING: case LO_PCT_BETWEEN: {
+    /* a literal "%%" in the format of a formatted write at the end of the prefix, then an append behind it */
+    const char* f = op == LO_PCT_LEADING ? "%%%s" : op == LO_PCT_TRAILING ? "%s%%" : "%s%%%%%s";
+    int on;
+    if (op == LO_PCT_BETWEEN) on = snprintf(l_tmp, sizeof l_tmp, f, l_payload, "Q"); else on = snprintf(l_tmp, sizeof l_tmp, f, l_payload);
+    snprintf(l_expect, sizeof l_expect, "%s%s", l_prefix, l_tmp);
+    s = new_raw(String, $S(l_prefix)); l_init = l_prefix;
+    if (op == LO_PCT_LEADING) LOP(ret = print_to(s, P, "%%%s", $S(l_payload)));
+    else if (op == LO_PCT_TRAILING) LOP(ret = print_to(s, P, "%s%%", $S(l_payload)));
+    else LOP(ret = print_to(s, P, "%s%%%%%s", $S(l_payload), $S("Q")));
+    if (!e && ret != P + on) { vf_violation(LL("returned-position"), NULL, "print_to(s, %d, \"%s\", payload) returned %d, expected %d", P, f, (int)ret, P + on); bad = 1; }
+    if (!e && !bad) bad = posthash_bad(l_expect);
+    if (!e && !bad) bad = ladder_check(s, l_expect);
+    if (!e && !bad) {
+      static char before2[LCAP]; strcpy(before2, l_expect); l_init = before2;
+      strcat(l_expect, "Z");
+      LOP(append(s, $S("Z")));
+    }
     break; }
   case LO_COPY:
     snprintf(l_expect, sizeof l_expect, "%s%s", l_prefix, l_payload);
@@ -1023,6 +1074,7 @@ int main(int argc, char** argv) {
   const char* prop = vf_param("prop", "C16");
   propC12 = strcmp(prop, "C12") == 0;
   hashop = (int)vf_param_i("hashop", 0);
+  pct = (int)vf_param_i("pct", 0);
   int probe_default = hashop ? 0 : 1;
   SENT = new_raw(String, $S("~another string, never equal in length to the explored ones~"));
   do_probe = (int)vf_param_i("probe", probe_default);
@@ -1042,7 +1094,7 @@ int main(int argc, char** argv) {
   }
 
   static char dname[96];
-  snprintf(dname, sizeof dname, "string[alpha=%d,maxlen=%d,ulen=%d,%s%s]", A, L, UL, prop, hashop ? ",hashop" : "");
+  snprintf(dname, sizeof dname, "string[alpha=%d,maxlen=%d,ulen=%d,%s%s%s]", A, L, UL, prop, hashop ? ",hashop" : "", pct ? ",pct" : "");
   struct vf_domain d = { dname, nops_total(), reset, cleanup, apply, check, canon, opname, nontrivial,
                          (size_t)vf_param_i("depth", 0), (size_t)vf_param_i("max_states", 0) };
 
